@@ -17,6 +17,11 @@ const (
 	CutRST           // SetLinger(0) then close: peer sees a reset
 	CutHalf          // close only the write side towards the receiver of that direction
 	CutStall         // stop forwarding for StallFor, then RST
+	// CutHalfBlackhole: FIN towards the receiver of that direction while nothing that the
+	// receiver sends is read any more (its socket buffers fill up and its writes block): a
+	// middlebox that half-closes and goes deaf. The sockets are torn down only after
+	// BlackholeFor (or when the proxy closes).
+	CutHalfBlackhole
 )
 
 // Plan describes the fault for the next accepted connection.
@@ -25,6 +30,8 @@ type Plan struct {
 	Dir      int // 0: cut measured on client->server bytes, 1: on server->client bytes
 	After    int // forward exactly this many bytes in that direction, then cut
 	StallFor time.Duration
+	// BlackholeFor bounds CutHalfBlackhole (default 25 s, longer than every oracle bound).
+	BlackholeFor time.Duration
 }
 
 // Proxy is a counting, fault-injecting TCP proxy in front of one backend address.
@@ -55,6 +62,8 @@ type pconn struct {
 	fwd    [2]atomic.Int64
 	plan   Plan
 	cutOne sync.Once
+	deaf   atomic.Bool   // CutHalfBlackhole: stop reading in both directions
+	undeaf chan struct{} // closed when the connection is torn down
 }
 
 func NewProxy(backend string) (*Proxy, error) {
@@ -176,7 +185,16 @@ func (p *Proxy) acceptLoopOn(ln net.Listener) {
 				rst(c)
 				return
 			}
-			pc := &pconn{p: p, c: c, s: s, plan: plan}
+			pc := &pconn{p: p, c: c, s: s, plan: plan, undeaf: make(chan struct{})}
+			if plan.Kind == CutHalfBlackhole {
+				// small receive buffers: the peers' writes block after a few hundred KB instead of several MB
+				if tc, ok := c.(*net.TCPConn); ok {
+					tc.SetReadBuffer(16 << 10)
+				}
+				if ts, ok := s.(*net.TCPConn); ok {
+					ts.SetReadBuffer(16 << 10)
+				}
+			}
 			p.mu.Lock()
 			if p.closed.Load() {
 				p.mu.Unlock()
@@ -215,6 +233,7 @@ func (pc *pconn) close(kind CutKind) {
 			pc.c.Close()
 			pc.s.Close()
 		}
+		close(pc.undeaf)
 		pc.p.Live.Add(-1)
 		pc.p.mu.Lock()
 		delete(pc.p.conns, pc)
@@ -225,7 +244,15 @@ func (pc *pconn) close(kind CutKind) {
 func (pc *pconn) pipe(dir int, src, dst net.Conn) {
 	buf := make([]byte, 32<<10)
 	for {
+		if pc.deaf.Load() {
+			<-pc.undeaf
+			return
+		}
 		n, err := src.Read(buf)
+		if pc.deaf.Load() {
+			<-pc.undeaf
+			return
+		}
 		if n > 0 {
 			b := buf[:n]
 			if pc.plan.Kind != CutNone && pc.plan.Dir == dir {
@@ -281,6 +308,22 @@ func (pc *pconn) cut(dst net.Conn) {
 				time.Sleep(300 * time.Millisecond)
 				pc.close(CutFIN)
 			}()
+		case CutHalfBlackhole:
+			pc.deaf.Store(true)
+			if tc, ok := dst.(*net.TCPConn); ok {
+				tc.CloseWrite()
+			}
+			d := pc.plan.BlackholeFor
+			if d == 0 {
+				d = 25 * time.Second
+			}
+			go func() {
+				select {
+				case <-time.After(d):
+					pc.close(CutRST)
+				case <-pc.undeaf:
+				}
+			}()
 		case CutStall:
 			time.Sleep(pc.plan.StallFor)
 			pc.p.CutAt.Store(time.Now().UnixNano())
@@ -291,6 +334,22 @@ func (pc *pconn) cut(dst net.Conn) {
 			pc.close(CutFIN)
 		}
 	})
+}
+
+// EndBlackholes tears down the connections that are in the deaf state of CutHalfBlackhole
+// (and only those: a replacement connection the client has opened meanwhile is left alone).
+func (p *Proxy) EndBlackholes() {
+	p.mu.Lock()
+	var list []*pconn
+	for pc := range p.conns {
+		if pc.deaf.Load() {
+			list = append(list, pc)
+		}
+	}
+	p.mu.Unlock()
+	for _, pc := range list {
+		pc.close(CutRST)
+	}
 }
 
 // KillAll breaks every live connection.
